@@ -349,9 +349,12 @@ def ref_sig_blob(d, z, hash_type, high_s=False):
 def ref_sign_input(built, txd, i, positions, hash_type, variant="plain"):
     """fill txd input i with an unlocking script signed (reference ECDSA over the reference digest) by the keys at the
     given positions of the input's key list.  hash_type is the full byte (fork-id bit included where needed).
-    variants (all consensus-valid, the last three not policy-canonical): plain | highs | p1push | junk"""
+    variants (consensus-valid, the last three not policy-canonical): plain | highs | p1push | junk;
+    "stale": well-formed signatures over a digest this transaction no longer has (as left behind by an edit after signing)"""
     inp = built.ins[i]
     z = ref_digest(built, txd, i, hash_type)
+    if variant == "stale":
+        z = (z ^ 1) or 1
     blobs = [ref_sig_blob(RING_D[inp.keys[p]], z, hash_type, high_s=(variant == "highs")) for p in sorted(positions)]
     push = push_min
     if variant == "p1push":
